@@ -123,7 +123,7 @@ pub fn exec_case_noise(c: &Case, noise: Option<u64>) -> (String, String) {
         .zip(idx.iter())
         .map(|((r, o), k)| {
             format!(
-                "{{| r_owned := {}; r_pool := {}; r_noip := {}; r_threads := {}; r_res := r{}; r_trace := {}; r_borrowed_ok := {}; r_consts_ok := {} |}}",
+                "(Build_run_obs {} {} {} {} r{} {} {} {})",
                 coq_list(&r.owned), r.pool, r.noip, r.threads, k, coq_trace(&o.trace), o.borrowed_ok, o.consts_ok
             )
         })
@@ -132,22 +132,22 @@ pub fn exec_case_noise(c: &Case, noise: Option<u64>) -> (String, String) {
         table.iter().enumerate().map(|(k, t)| format!("let r{} := {} in ", k, t.coq())).collect();
     let ins: Vec<String> = c.ins.iter().map(|(i, d)| format!("({}, {})", i, d.coq())).collect();
     let term = format!(
-        "({}{{| c_graph := {}; c_ops := {}; c_consts := {}; c_ins := [{}]; c_outs := {}; c_plan := {}; c_plan_noip := {}; c_runs := [{}] |}})",
+        "({}{{| c_graph := {}; c_ops := {}; c_consts := {}; c_ins := {}; c_outs := {}; c_plan := {}; c_plan_noip := {}; c_runs := {} |}})",
         lets,
         coq_graph(&c.spec),
         coq_ops(&c.spec),
         coq_consts(&c.consts),
-        ins.join(";"),
+        coq_cons(&ins),
         coq_list(&c.outs),
         match &plan {
-            Some(p) => format!("Some {}", coq_list(p)),
+            Some(p) => format!("(Some {})", coq_list(p)),
             None => "None".to_string(),
         },
         match &plan_noip {
-            Some(p) => format!("Some {}", coq_list(p)),
+            Some(p) => format!("(Some {})", coq_list(p)),
             None => "None".to_string(),
         },
-        runs.join(";")
+        coq_cons(&runs)
     );
     // tag: what the case exercised
     let any_ip = outs.iter().any(|o| o.trace.iter().any(|e| !e.in_place.is_empty()));
@@ -170,7 +170,7 @@ pub fn exec_case_noise(c: &Case, noise: Option<u64>) -> (String, String) {
 
 pub fn timeout_term(c: &Case) -> String {
     format!(
-        "{{| c_graph := {}; c_ops := {}; c_consts := {}; c_ins := []; c_outs := {}; c_plan := Some []; c_plan_noip := Some []; c_runs := [{{| r_owned := []; r_pool := true; r_noip := false; r_threads := 0; r_res := ITimeout; r_trace := []; r_borrowed_ok := true; r_consts_ok := true |}}] |}}",
+        "{{| c_graph := {}; c_ops := {}; c_consts := {}; c_ins := nil; c_outs := {}; c_plan := Some nil; c_plan_noip := Some nil; c_runs := (cons (Build_run_obs nil true false 0 ITimeout nil true true) nil) |}}",
         coq_graph(&c.spec), coq_ops(&c.spec), coq_consts(&c.consts), coq_list(&c.outs)
     )
 }
